@@ -167,3 +167,14 @@ Example C12_log_example : log_of [[11; 12]; [21]; []] [1; 2; 0] = [21; 11; 12] /
 Proof.
   split; [reflexivity|]. apply (perm_trans (l' := [1; 0; 2])); [apply perm_skip; apply perm_swap|apply perm_swap].
 Qed.
+
+(* (ix) Shared accumulators updated under the SMP lock (the error word: (iv); the citation counters of
+   colvarmodule::usage, incremented by every cvm::rotation constructed during an evaluation): each item contributes an
+   element of a commutative monoid; the result does not depend on the order in which the items take the lock.  That the
+   updates ARE under the lock is a fact about the C++ explored with ThreadSanitizer (it was false for the citation
+   counters before `fix: citation counters were updated without synchronisation ...`). *)
+Theorem C12_locked_accumulator_order_independent : forall (M : Type) (op : M -> M -> M) (e : M),
+  (forall a b c, op a (op b c) = op (op a b) c) -> (forall a b, op a b = op b a) -> (forall a, op e a = a) ->
+  forall (l l' : list M), Permutation l l' -> msum op e l = msum op e l'.
+Proof. exact locked_accumulator_order_independent. Qed.
+Print Assumptions C12_locked_accumulator_order_independent.
